@@ -167,7 +167,7 @@ impl Token for SnapTokenClaims {
     }
 
     fn exp_time(&self) -> SystemTime {
-        SystemTime::UNIX_EPOCH + std::time::Duration::from_secs(self.exp)
+        crate::exp_to_system_time(self.exp)
     }
 
     fn required_claims() -> Vec<&'static str> {
